@@ -53,7 +53,7 @@ Lemma insert_atomic : forall fx sch st rows ret st',
 Proof.
   intros fx sch st rows ret st' H Hc. cbn [step] in H. unfold do_insert in H.
   unfold stmt_class in Hc. cbn [step] in Hc. unfold do_insert in Hc.
-  destruct (forallb (row_fits (s_tys sch)) rows); [|discriminate].
+  destruct (forallb (row_known (s_tys sch)) rows); [|discriminate].
   destruct (ins_loop sch st rows 0) as [[b s1] n] eqn:E.
   destruct b; [discriminate|].
   inversion H; subst. destruct fx; [reflexivity|].
@@ -69,11 +69,12 @@ Theorem stmt_atomic : forall fx sch st s st',
   fx = true \/ stmt_class sch st s <> 4 ->
   st' = st.
 Proof.
-  intros fx sch st s st' H Hc. destruct s as [rows ret|w ret|sets w ret|].
+  intros fx sch st s st' H Hc. destruct s as [rows ret|w ret|sets w ret| |].
   - eapply insert_atomic; [exact H|exact Hc].
   - exfalso. eapply delete_never_fails; exact H.
   - eapply update_atomic; exact H.
   - exfalso. eapply truncate_never_fails; exact H.
+  - cbn [step] in H. inversion H. reflexivity.
 Qed.
 
 (* histories: every failing statement outside class 4 leaves what is visible (rows, COUNT star)
